@@ -65,6 +65,9 @@ Record cfg := {
   gdepth : Z;                      (* handle->depth (-D, default 1024) *)
   threshold : N;                   (* handle->time_filter (-t) *)
   range_start : N; range_stop : N; (* handle->time_range, absolute timestamps, 0 = not given *)
+  loc_of : N -> option bool;       (* TRIGGER_FL_LOC of the function's source file: Some true = -L FILE,
+                                      Some false = -L FILE@hide *)
+  lmode_in : bool;                 (* fstack_triggers.loc_count > 0 (some -L without @hide) *)
   is_plt : N -> bool;              (* sym->type == ST_PLT_FUNC *)
   libcall : bool;                  (* opts->libcall (false = --no-libcall) *)
   no_merge : bool                  (* replay --no-merge; the script command behaves like no_merge *)
@@ -163,6 +166,10 @@ Definition consume (c : cfg) (s0 : st) (r : rec) : st :=
       end
   end.
 
+(* the source-location filter hides the function itself (not its callees), before its triggers are looked at *)
+Definition loc_hidden (c : cfg) (f : N) : bool :=
+  match loc_of c f with Some false => true | Some true => false | None => lmode_in c end.
+
 (* fstack_entry on slot stack_count-1; returns the new state and "ret == 0" *)
 Definition fstack_entry (c : cfg) (s : st) (r : rec) : st * bool :=
   match below s with
@@ -183,6 +190,8 @@ Definition fstack_entry (c : cfg) (s : st) (r : rec) : st * bool :=
           then ret false false true (inc s) (outc s) (fdepth s) (enabled s) (disp s) (disp_set s) false else
           let i1 := if isF then inc s + 1 else inc s in
           let d1 := if isF then gdepth c else fdepth s in
+          if loc_hidden c (r_fn r)
+          then ret isF false true i1 (outc s) d1 (enabled s) (disp s) (disp_set s) false else
           let d2 := match q_depth tr with Some x => x | None => d1 end in
           let en1 := if q_trace_on tr then true else enabled s in
           let en2 := if q_trace_off tr then false else en1 in
@@ -264,7 +273,11 @@ Definition check_skip (c : cfg) (s : st) (r : rec) : Z :=
       match q_filter tr with
       | Some false => -1
       | Some true => go (gdepth c)
-      | None => if fmode_in c && (inc s =? 0) then -1 else go (fdepth s)
+      | None =>
+          match loc_of c (r_fn r) with
+          | Some _ => go (fdepth s)          (* the TRIGGER_FL_LOC branch tests tr.fmode, which is not OUT here *)
+          | None => if (fmode_in c || lmode_in c) && (inc s =? 0) then -1 else go (fdepth s)
+          end
       end
   end.
 
@@ -321,7 +334,8 @@ Definition run_rp (c : cfg) (rs : list rec) : list vev :=
   let '(sm, o) := run_steps (rp_step c) (st0 c, Normal) (pre c rs) in o ++ rp_finish sm.
 Definition set_no_merge (c : cfg) (b : bool) : cfg :=
   {| trig_of := trig_of c; fmode_in := fmode_in c; caller_filter := caller_filter c; gdepth := gdepth c;
-     threshold := threshold c; range_start := range_start c; range_stop := range_stop c; is_plt := is_plt c;
+     threshold := threshold c; range_start := range_start c; range_stop := range_stop c;
+     loc_of := loc_of c; lmode_in := lmode_in c; is_plt := is_plt c;
      libcall := libcall c; no_merge := b |}.
 Definition run_script (c : cfg) (rs : list rec) : list vev := run_rp (set_no_merge c true) rs.
 
@@ -362,7 +376,7 @@ Fixpoint tprune (c : cfg) (thr : N) (n : call) : list call :=
       then [Call f t0 t1 ks'] else []
   end.
 
-(* -F / -N / -D / depth= / -H on a (pruned) tree.  inF: inside an -F function; bud: levels left;
+(* -F / -N / -L / -D / depth= / -H on a (pruned) tree.  inF: inside an -F function; bud: levels left;
    d: display depth; rd: depth in the recording *)
 Fixpoint vis (c : cfg) (inF : bool) (bud d rd : Z) (n : call) : list vev :=
   match n with
@@ -377,6 +391,7 @@ Fixpoint vis (c : cfg) (inF : bool) (bud d rd : Z) (n : call) : list vev :=
           else
             let inF' := inF || isF in
             let bud1 := if isF then gdepth c else bud in
+            if loc_hidden c f then flat_map (vis c inF' bud1 d (rd + 1)) ks else
             let bud2 := match q_depth tr with Some x => x | None => bud1 end in
             if (bud2 <=? 0) || q_hide tr
             then flat_map (vis c inF' bud2 d (rd + 1)) ks
@@ -482,14 +497,15 @@ Definition record (mc : MC.cfg) (f : list call) : list rec :=
 Definition to_mtrig (q : rtrig) : MC.trig :=
   {| MC.t_filter := q_filter q; MC.t_depth := option_map Z.to_N (q_depth q); MC.t_time := q_time q;
      MC.t_size := None; MC.t_trace_on := q_trace_on q; MC.t_trace_off := q_trace_off q;
-     MC.t_trace := q_trace q; MC.t_caller := q_caller q |}.
+     MC.t_trace := q_trace q; MC.t_caller := q_caller q; MC.t_loc := None; MC.t_finish := false |}.
 Definition to_mcfg (c : cfg) (sh : MC.shape) : MC.cfg :=
   {| MC.trig_of := fun k => to_mtrig (trig_of c k); MC.fmode_in := fmode_in c; MC.has_caller := caller_filter c;
      MC.gdepth := Z.to_N (gdepth c); MC.threshold := threshold c; MC.max_stack := 1024;
-     MC.sym_size := fun _ => 0%N; MC.shp := sh |}.
+     MC.sym_size := fun _ => 0%N; MC.shp := sh; MC.lmode_in := false |}.
 Definition plain : cfg :=
   {| trig_of := fun _ => notrig; fmode_in := false; caller_filter := false; gdepth := 1024; threshold := 0;
-     range_start := 0; range_stop := 0; is_plt := fun _ => false; libcall := true; no_merge := false |}.
+     range_start := 0; range_stop := 0; loc_of := fun _ => None; lmode_in := false;
+     is_plt := fun _ => false; libcall := true; no_merge := false |}.
 
 (* "record with the option, replay without" vs "record without, replay with the option" *)
 Definition rec_then_plain (c : cfg) (sh : MC.shape) (f : list call) : list vev :=
@@ -499,10 +515,61 @@ Definition plain_then_opt (c : cfg) (f : list call) : list vev := run_std c (fla
 (* ------------------------------------------------------------------ table-driven configuration *)
 Fixpoint assoc {A} (d : A) (l : list (N * A)) (k : N) : A :=
   match l with [] => d | (k', v) :: r => if (k =? k')%N then v else assoc d r k end.
-Definition mkcfg (tr : list (N * rtrig)) (fm cl : bool) (gd : Z) (thr rs re : N) (plt : list N) (lc nm : bool) : cfg :=
+Definition mkcfgL (tr : list (N * rtrig)) (fm cl : bool) (gd : Z) (thr rs re : N) (plt : list N) (lc nm : bool)
+                  (loc : list (N * bool)) : cfg :=
   {| trig_of := assoc notrig tr; fmode_in := fm; caller_filter := cl; gdepth := gd; threshold := thr;
-     range_start := rs; range_stop := re; is_plt := fun k => existsb (fun x => (x =? k)%N) plt;
+     range_start := rs; range_stop := re;
+     loc_of := fun k => assoc None (map (fun p => (fst p, Some (snd p))) loc) k;
+     lmode_in := existsb snd loc;
+     is_plt := fun k => existsb (fun x => (x =? k)%N) plt;
      libcall := lc; no_merge := nm |}.
+Definition mkcfg (tr : list (N * rtrig)) (fm cl : bool) (gd : Z) (thr rs re : N) (plt : list N) (lc nm : bool) : cfg :=
+  mkcfgL tr fm cl gd thr rs re plt lc nm [].
+
+(* ------------------------------------------------------------------ size filter (spec only) *)
+(* -Z SIZE / -T f@size=N (analysis time): "filter functions that has small sizes": a function whose symbol
+   is smaller than the size in force is not shown, its callees are judged on their own; size=N on a function
+   replaces the size in force for the function itself and for everything below it. *)
+Fixpoint vis_size (szof : N -> N) (ztr : N -> option N) (zs : N) (d rd : Z) (n : call) : list vev :=
+  match n with
+  | Call f t0 t1 ks =>
+      let zs' := match ztr f with Some z => z | None => zs end in
+      if (szof f <? zs')%N
+      then flat_map (vis_size szof ztr zs' d (rd + 1)) ks
+      else {| v_exit := false; v_fn := f; v_disp := d; v_rdepth := rd; v_time := t0 |}
+             :: flat_map (vis_size szof ztr zs' (d + 1) (rd + 1)) ks
+             ++ [{| v_exit := true; v_fn := f; v_disp := d; v_rdepth := rd; v_time := t1 |}]
+  end.
+Definition select_size (szof : N -> N) (ztr : N -> option N) (zs : N) (f : list call) : list vev :=
+  flat_map (vis_size szof ztr zs 0 0) f.
+
+(* the options -H f for every function f smaller than zs, and nothing else *)
+Definition hide_small (szof : N -> N) (zs : N) : cfg :=
+  {| trig_of := fun f => {| q_filter := None; q_depth := None; q_time := None; q_trace_on := false; q_trace_off := false;
+                            q_trace := false; q_caller := false; q_hide := (szof f <? zs)%N |};
+     fmode_in := false; caller_filter := false; gdepth := 1024; threshold := 0;
+     range_start := 0; range_stop := 0; loc_of := fun _ => None; lmode_in := false;
+     is_plt := fun _ => false; libcall := true; no_merge := false |}.
+
+(* the same as a transformation of the call tree, together with the time filter that shares the look-ahead list:
+   get_task_ustack drops the ENTRY and EXIT of a small function before the time filter sees them (the function is
+   neither timed nor a -C / trace target; its callees move up), but its time= and size= still govern everything
+   below it; -F/-N/-D/... in fstack_entry then work on what is left. *)
+Fixpoint zprune (c : cfg) (szof : N -> N) (ztr : N -> option N) (zs thr : N) (n : call) : list call :=
+  match n with
+  | Call f t0 t1 ks =>
+      let tr := trig_of c f in
+      let th := match q_time tr with Some t => t | None => thr end in
+      let zs' := match ztr f with Some z => z | None => zs end in
+      let ks' := flat_map (zprune c szof ztr zs' th) ks in
+      if (szof f <? zs')%N then ks'
+      else
+        let long := negb (tdelta t1 t0 <? th)%N && (negb (caller_filter c) || q_caller tr) in
+        if long || q_trace tr || negb (match ks' with [] => true | _ => false end)
+        then [Call f t0 t1 ks'] else []
+  end.
+Definition select_z (c : cfg) (szof : N -> N) (ztr : N -> option N) (zs : N) (f : list call) : list vev :=
+  flat_map (vis c false (gdepth c) 0 0) (flat_map (zprune c szof ztr zs (threshold c)) f).
 
 (* ------------------------------------------------------------------ several tasks *)
 (* Every task has its own data file, look-ahead list (get_task_ustack) and filter state; the commands read
